@@ -42,15 +42,35 @@ func gen(c *hmain.Ctx) {
 	add("split", pipedrv.FamSplit, 25)
 	add("retry", pipedrv.FamRetry, 20)
 	add("commit-race", pipedrv.FamCommitRace, 6)
+	// families / directed schedules that cross the scale / history thresholds of /repo/pipeline (what each would expose:
+	// pipedrv/gen.go, pipedrv/directed.go)
+	add("capacity-1", pipedrv.FamCap1, 15)
+	add("slow-flush", pipedrv.FamSlowFlush, 12)
+	add("hold-slow", pipedrv.FamHoldSlow, 12)
+	add("recycle", pipedrv.FamRecycle, 10)
+	add("split-fan", pipedrv.FamSplitFan, 10)
+	add("retry-backoff", pipedrv.FamRetryBackoff, 6)
+	add("maintenance", pipedrv.FamMaint, 6)
+	for i := 0; i < c.Scale; i++ {
+		for _, procs := range []int{1, 2, 4} {
+			jobs = append(jobs, &pipedrv.Job{Stream: "stale-unblock-slow", Case: pipedrv.StaleUnblockT(0, procs, 450)})
+			jobs = append(jobs, &pipedrv.Job{Stream: "stale-unblock-slow", Case: pipedrv.StaleUnblockT(1, procs, 450)})
+		}
+	}
+	for i := 0; i < 2*c.Scale; i++ {
+		jobs = append(jobs, &pipedrv.Job{Stream: "expand-procs", Case: pipedrv.ExpandProcs(2500, 1600, 2+i%3, i%2 == 1)})
+	}
 	pipedrv.RunJobs(jobs, 40)
 	for _, j := range jobs {
+		pipedrv.Stats(c.W.Count, j)
 		c.W.Case(j.Stream, 0, j.Case, j.Obs, true)
 	}
 }
 
 func main() {
+	pipedrv.UseProductionNodePool()
 	hmain.Run(&hmain.Prop{ID: "C04",
-		Rule: "pipeline cases as in C02 plus the family 'discard-before-hold' (an action in front of the holding one discards the event that follows a run, then silence) and directed schedules (heartbeat held before tryUnblock while the stream is unblocked and drained). Every case is non-trivial; distinct = distinct case text.",
+		Rule: "pipeline cases as in C02 plus the family 'discard-before-hold' (an action in front of the holding one discards the event that follows a run, then silence) and directed schedules (heartbeat held before tryUnblock while the stream is unblocked and drained). Threshold-crossing families: capacity-1, slow-flush (flush >= 100 ms), hold-slow (event time-out > 200 ms), recycle (feeder op 6: pads up to 64 KiB / > 64 JSON nodes; op 'g' grows Buf; 4th case element = (avgEventSize retentionMs multiplierPercent maintenanceMs)), split-fan (0-14 children with their own ops), retry-backoff, maintenance; directed expand-procs / stale-unblock-slow. Pool cases: streams size-classes (op 8: goroutine size up to 2^32-1) and recycle (op 9; gate-list option (1 avg)). Every case is non-trivial; distinct = distinct case text.",
 		Gen:  gen, Exec: func(which int, cs hx.Sx) hx.Sx {
 			if which == 10 || which == 11 {
 				return pooldrv.RunCase(cs)
